@@ -149,6 +149,15 @@ def gen_mmt(rng: random.Random):
     ec, tn = rng.choice([("engine", "time"), ("engine", "time"), ("environment", "time"), ("engine", "tt"), ("clock", "t_ms"), ("engine", "t")])
     if (ec, tn) != ("engine", "time"):
         text = text.replace("engine.time", f"{ec}.{tn}").replace("[engine]\ntime = 0 bind time", f"[{ec}]\n{tn} = 0 bind time")
+    # an initial value given with a unit or as an expression; the derivative of one state used in the equation of another
+    if rng.random() < 0.3:
+        q0 = all_state_q[0]
+        v0 = states[q0]
+        text = text.replace(f"\n{q0} = {v0}\n", f"\n{q0} = " + rng.choice([f"{v0} [mV]", f"{v0} * 2 / 2", f"{v0} [1/ms]"]) + "\n", 1)
+    if len(all_state_q) >= 2 and rng.random() < 0.3:
+        first, last = all_state_q[0], all_state_q[-1]
+        st_last = last.split(".")[1]
+        text = text.replace(f"dot({st_last}) = ", f"dot({st_last}) = 0.125 * dot({first}) + ", 1) if text.count(f"dot({st_last}) = ") == 1 else text
     # powers of rounding functions (the writer has to keep the sign of -floor(-x) inside the power)
     if rng.random() < 0.3:
         st = all_state_q[0].split(".")[1]
